@@ -23,19 +23,21 @@
 EXTENDS Wire, WireSniff, MC_C02_consts, TraceBase
 
 VARIABLES tid, l, verdict,
+          px,        \* conn: Parse(X), computed once (TLC re-evaluates definitions at every use)
+          mt,        \* conn: the documented shapes, [p |-> Matches(p, X)], computed once
           al,        \* conn: answers of the protocols alone, once the "alone" event was consumed (<<>> before)
           wc         \* sniff: the context's wrap_socket has been called
-tvars == <<tid, l, verdict, al, wc, svars>>
+tvars == <<tid, l, verdict, px, mt, al, wc, svars>>
 
 T  == Traces[tid]
 Ev == T.events
 X  == [line |-> T.init.line, tls |-> T.init.tls, hdrs |-> T.init.hdrs]          \* conn traces only
-PX == Parse(X)
-
-TInit == /\ tid \in 1..NTraces /\ l = 1 /\ verdict = "ok" /\ al = <<>> /\ wc = FALSE
-         /\ (IF T.init.kind = "sniff" THEN SInit(T.init.ctx, T.init.sent) ELSE SInit(FALSE, <<>>))
 
 ListedSet == {C_Listed[i] : i \in 1..Len(C_Listed)}
+TInit == /\ tid \in 1..NTraces /\ l = 1 /\ verdict = "ok" /\ al = <<>> /\ wc = FALSE
+         /\ (IF T.init.kind = "sniff" THEN SInit(T.init.ctx, T.init.sent) /\ px = <<>> /\ mt = <<>>
+             ELSE SInit(FALSE, <<>>) /\ px = Parse(X) /\ mt = MatchTable(ListedSet, X))
+
 Idx(p) == CHOOSE i \in 1..Len(C_Listed) : C_Listed[i] = p
 NLists == Len(C_Lists)
 FirstBad(S) == CHOOSE i \in S : \A j \in S : i <= j
@@ -48,20 +50,19 @@ DetectVerdict(e, m) ==
     ELSE IF e.again # e.got THEN "Deterministic"
     ELSE "ok"
 OnDetect(e) ==
-    /\ verdict' = DetectVerdict(e, MatchTable(ListedSet, X))
-    /\ (IF e.pos = Detect(C_Lists[1], PX).conn.pos THEN TRUE ELSE RecordDrift(tid, l, "read position"))
-    /\ UNCHANGED <<al, wc, svars>>
+    /\ verdict' = DetectVerdict(e, mt)
+    /\ (IF e.pos = Detect(C_Lists[1], px).conn.pos THEN TRUE ELSE RecordDrift(tid, l, "read position"))
+    /\ UNCHANGED <<px, mt, al, wc, svars>>
 
 OnAlone(e) ==
     /\ (IF Len(e.r) # Len(C_Listed) THEN (verdict' = "unmatched" /\ UNCHANGED al)
-        ELSE LET m == MatchTable(ListedSet, X)
-                 px == PX IN
+        ELSE LET m == mt IN
              /\ al' = [p \in ListedSet |-> e.r[Idx(p)]]
              /\ verdict' = (IF \E i \in 1..Len(C_Listed) : ~ClaimsMatchShapeAt(C_Listed[i], m, e.r[i])
                             THEN "ClaimsMatchShape" ELSE "ok")
              /\ (IF \A i \in 1..Len(C_Listed) : e.r[i] = Claims(C_Listed[i], px, FreshConn).r THEN TRUE
                  ELSE RecordDrift(tid, l, "claims differ from the transcription")))
-    /\ UNCHANGED <<wc, svars>>
+    /\ UNCHANGED <<px, mt, wc, svars>>
 
 OrderVerdict(lst, got, m) ==
     IF ~TlsStrictAt(X.tls, got) THEN "TlsStrict"
@@ -70,10 +71,10 @@ OrderVerdict(lst, got, m) ==
     ELSE "ok"
 OnOrders(e) ==
     /\ (IF al = <<>> \/ Len(e.got) # NLists THEN verdict' = "unmatched"
-        ELSE LET m == MatchTable(ListedSet, X)
+        ELSE LET m == mt
                  bad == {i \in 1..NLists : OrderVerdict(C_Lists[i], e.got[i], m) # "ok"} IN
              verdict' = (IF bad = {} THEN "ok" ELSE OrderVerdict(C_Lists[FirstBad(bad)], e.got[FirstBad(bad)], m)))
-    /\ UNCHANGED <<al, wc, svars>>
+    /\ UNCHANGED <<px, mt, al, wc, svars>>
 
 (* ---- sniff events ---------------------------------------------------------------------- *)
 \* a recv the code made: whatever it was, nothing may have left the buffer (property); at design level it is
@@ -83,20 +84,20 @@ OnRecv(e) ==
     /\ (IF CanPeek /\ e.peek /\ e.n = 1 /\ e.ret = (IF sent = <<>> THEN <<>> ELSE <<sent[1]>>)
         THEN Peek
         ELSE (UNCHANGED svars /\ RecordDrift(tid, l, "recv is not the modelled one-byte peek")))
-    /\ UNCHANGED <<al, wc>>
+    /\ UNCHANGED <<px, mt, al, wc>>
 \* the connection is handed to the TLS context: only a TLS hello may get there, and intact
 OnWrapCall(e) ==
     /\ verdict' = (IF ~(ctx /\ IsHello) THEN "SniffExact"
                    ELSE IF ~SniffPureAt(e.readable) THEN "SniffPure" ELSE "ok")
     /\ wc' = TRUE
-    /\ UNCHANGED <<al, svars>>
+    /\ UNCHANGED <<px, mt, al, svars>>
 OnReturn(e) ==
     /\ verdict' = (IF ~SniffExactAt(e.wrapped) \/ e.wrapped # wc THEN "SniffExact"
                    ELSE IF ~SniffPureAt(e.readable) THEN "SniffPure" ELSE "ok")
     /\ (IF CanDecide THEN (Decide /\ (IF wrapped' = e.wrapped THEN TRUE ELSE RecordDrift(tid, l, "decision")))
         ELSE IF CanSkipPeek THEN SkipPeek
         ELSE (UNCHANGED svars /\ RecordDrift(tid, l, "return without the modelled peek")))
-    /\ UNCHANGED <<al, wc>>
+    /\ UNCHANGED <<px, mt, al, wc>>
 
 Consume ==
     /\ l <= Len(Ev) /\ verdict = "ok"
@@ -108,14 +109,14 @@ Consume ==
        ELSE IF T.init.kind = "sniff" /\ e.ev = "recv" /\ spc # "done" THEN OnRecv(e)
        ELSE IF T.init.kind = "sniff" /\ e.ev = "wrapcall" /\ spc # "done" THEN OnWrapCall(e)
        ELSE IF T.init.kind = "sniff" /\ e.ev = "return" /\ spc # "done" THEN OnReturn(e)
-       ELSE (verdict' = "unmatched" /\ UNCHANGED <<al, wc, svars>>))
+       ELSE (verdict' = "unmatched" /\ UNCHANGED <<px, mt, al, wc, svars>>))
 
 \* a complete trace: conn = detect, alone, orders;  sniff = ends with return.  (Dropping an event is rejected.)
 Complete == IF T.init.kind = "conn"
             THEN Len(Ev) = 3 /\ Ev[1].ev = "detect" /\ Ev[2].ev = "alone" /\ Ev[3].ev = "orders"
             ELSE Len(Ev) >= 1 /\ Ev[Len(Ev)].ev = "return"
 Reject == /\ l = 1 /\ verdict = "ok" /\ ~Complete
-          /\ verdict' = "unmatched" /\ UNCHANGED <<tid, l, al, wc, svars>>
+          /\ verdict' = "unmatched" /\ UNCHANGED <<tid, l, px, mt, al, wc, svars>>
 
 TNext == IF l = 1 /\ ~Complete THEN Reject ELSE Consume
 TSpec == TInit /\ [][TNext]_tvars
